@@ -1034,6 +1034,25 @@ func runC07(c *Ctx) {
 		}
 	}
 
+	// defaults reach every nesting level: ApplyTypeDefaults lies on a call cycle (it, or a helper it calls, applies the
+	// defaults of the type definitions named by the fields' types to nested objects and list elements)
+	if ad := c.fn(interpPkg, "Interpreter.ApplyTypeDefaults"); ad != nil {
+		rec := false
+		eachCall(ad, func(call ssa.CallInstruction) {
+			sf := staticFn(call)
+			if sf == nil || sf.Pkg != ad.Pkg {
+				return
+			}
+			if sf == ad || reachesInstr(sf, func(y ssa.Instruction) bool {
+				c2, ok := y.(ssa.CallInstruction)
+				return ok && staticFn(c2) == ad
+			}, 0, map[*ssa.Function]bool{}) {
+				rec = true
+			}
+		})
+		c.ob("C07-R11", fnKey(ad)+"#defaults-applied-at-every-nesting-level", ad.Pos(), rec, "ApplyTypeDefaults fills absent fields of the top-level object only and never comes back to itself for a field whose type is another type definition: validation treats the nested type's defaulted fields as optional, so the request is accepted and the body sees them absent")
+	}
+
 	c.rule("C07-R12", "MEMO: where the validators (ValidateObjectAgainstTypeDef, CheckType, ApplyTypeDefaults and what they call in pkg/interpreter) remember something in storage that outlives the request (a map or sync.Map held in a TypeChecker/Interpreter field), the key covers what the remembered value was computed from: a value computed from a type definition's Fields is never filed under the definition's Name alone - two definitions with one Name coexist (`import { User as BillingUser }` keeps the original Name), and whichever is validated first would decide how the other's fields are checked")
 	{
 		roots := []*ssa.Function{c.fn(interpPkg, "TypeChecker.ValidateObjectAgainstTypeDef"), c.fn(interpPkg, "TypeChecker.CheckType"), c.fn(interpPkg, "Interpreter.ApplyTypeDefaults")}
@@ -1290,7 +1309,29 @@ func freshDefaultsRule(c *Ctx, rule string) {
 				switch x := v.(type) {
 				case *ssa.Extract:
 					if call, isC := x.Tuple.(*ssa.Call); isC {
-						return callName(call) == interpPath+".Interpreter.EvaluateExpression"
+						if callName(call) == interpPath+".Interpreter.EvaluateExpression" {
+							return true
+						}
+						// the nested application of defaults: a helper of the package that comes back to
+						// ApplyTypeDefaults, given a value that is itself the request's own or an evaluated default
+						// (a value read back from the copy being built)
+						if sf := staticFn(call); sf != nil && sf.Pkg == ad.Pkg && len(call.Call.Args) >= 2 {
+							if sf == ad || reachesInstr(sf, func(y ssa.Instruction) bool {
+								c2, ok := y.(ssa.CallInstruction)
+								return ok && staticFn(c2) == ad
+							}, 0, map[*ssa.Function]bool{}) {
+								arg := call.Call.Args[1]
+								if ex, isE := arg.(*ssa.Extract); isE {
+									if lk, isL := ex.Tuple.(*ssa.Lookup); isL {
+										if _, isMk := lk.X.(*ssa.MakeMap); isMk {
+											return true
+										}
+									}
+								}
+								return ok2(arg, d+1)
+							}
+						}
+						return false
 					}
 					if nx, isN := x.Tuple.(*ssa.Next); isN {
 						return !nx.IsString // copying the request's own object (range over the parameter map)
